@@ -3,6 +3,7 @@
 // History invariants over generated topologies/histories under the deterministic scheduler.
 #include "pbt.hpp"
 #include "nngh.h"
+#include <unistd.h>
 
 namespace {
 
@@ -23,13 +24,20 @@ struct World {
 	int        sbuf[NPUSH]        = {0, 0};
 	uint32_t   seq[NPUSH]         = {0, 0};
 	std::set<uint32_t>                   accepted, received;
-	std::map<std::pair<int, int>, uint32_t> last; // (pusher, puller) -> last tag seen
+	std::map<std::pair<int, uint32_t>, uint32_t> last; // (pusher, receiving pipe id) -> last tag seen on that connection
+	bool wire_used[NPUSH] = {false, false};    // pusher ever connected through a kernel transport (kernel buffers absorb messages)
 	std::vector<Pending *>               pend[NPUSH];
 	bool pipe_closed  = false;
 	bool shrink_loss  = false;
 	int  pullers_used = 0;
 	bool puller_got[NPULL] = {};
 	bool released      = false;
+	// empty messages carry no tag: they are judged by count (received <= accepted always, == under conservation)
+	long empty_accepted = 0, empty_received = 0;
+	int  tran[NPULL] = {0, 0, 0}; // 0 inproc, 1 ipc, 2 tcp
+	char url[NPULL][96];
+	bool push_listens[NPUSH] = {false, false};
+	bool wire = false; // some puller sits behind a kernel transport
 };
 
 static void
@@ -79,7 +87,22 @@ static void
 got(World &W, int q, nng_msg *m)
 {
 	uint32_t tag;
+	if (nng_msg_len(m) == 0 && nng_msg_header_len(m) == 0) {
+		nng_msg_free(m);
+		W.empty_received++;
+		for (int pp = 0; pp < NPUSH; pp++)
+			reap_pending(W, pp);
+		VR_CHECK(W.empty_received <= W.empty_accepted, "C06:phantom-message", "puller %d received an empty message, %ld received but only %ld accepted (duplicate or phantom)", q,
+		    W.empty_received, W.empty_accepted);
+		if (!W.puller_got[q]) {
+			W.puller_got[q] = true;
+			W.pullers_used++;
+		}
+		vr_tag("empty_message_delivered");
+		return;
+	}
 	VR_CHECK(h_msg_tag(m, &tag) == 0, "C06:corrupt-message", "puller %d received a corrupted message (len %zu)", q, nng_msg_len(m));
+	uint32_t pipeid = (uint32_t) nng_pipe_id(nng_msg_get_pipe(m));
 	nng_msg_free(m);
 	int p = (int) (tag >> 24);
 	VR_CHECK(p >= 0 && p < NPUSH, "C06:corrupt-message", "bad tag %x", tag);
@@ -93,7 +116,7 @@ got(World &W, int q, nng_msg *m)
 	// order.  A blocked asynchronous send is accepted at an unobservable later moment (it may be
 	// overtaken by a later send that found room), so it carries no ordering obligation.
 	if (!(tag & 0x800000)) {
-		auto key = std::make_pair(p, q);
+		auto key = std::make_pair(p, pipeid);
 		auto it  = W.last.find(key);
 		if (it != W.last.end())
 			VR_CHECK(tag > it->second, "C06:reordered", "connection pusher %d -> puller %d delivered %x after %x", p, q, tag, it->second);
@@ -119,14 +142,34 @@ exec_c06(const vcase *vc)
 		H_OK(nng_push0_open(&W.push[p]));
 		H_OK(nng_socket_set_int(W.push[p], NNG_OPT_SENDBUF, 0));
 	}
+	int first = 1;
+	if (vc->nops > 1 && strcmp(vc->ops[1].name, "trans") == 0) {
+		for (int q = 0; q < NPULL; q++)
+			W.tran[q] = (int) vop_arg(&vc->ops[1], q, 0) % 3;
+		first = 2;
+	}
 	for (int q = 0; q < NPULL; q++) {
-		char url[32];
-		snprintf(url, sizeof url, "inproc://c06-%d", q);
 		H_OK(nng_pull0_open(&W.pull[q]));
-		H_OK(nng_listen(W.pull[q], url, NULL, 0));
+		nng_listener l;
+		if (W.tran[q] == 1) {
+			snprintf(W.url[q], sizeof W.url[q], "ipc:///tmp/verif-c06-%d-%d.sock", (int) getpid(), q);
+			unlink(W.url[q] + 6);
+			H_OK(nng_listen(W.pull[q], W.url[q], &l, 0));
+			W.wire = true;
+		} else if (W.tran[q] == 2) {
+			H_OK(nng_listen(W.pull[q], "tcp://127.0.0.1:0", &l, 0));
+			int port = 0;
+			H_OK(nng_listener_get_int(l, NNG_OPT_BOUND_PORT, &port));
+			snprintf(W.url[q], sizeof W.url[q], "tcp://127.0.0.1:%d", port);
+			W.wire = true;
+		} else {
+			snprintf(W.url[q], sizeof W.url[q], "inproc://c06-%d", q);
+			H_OK(nng_listen(W.pull[q], W.url[q], &l, 0));
+		}
+		vr_tagf("tran%d", W.tran[q]);
 	}
 	vs_settle();
-	for (int i = 1; i < vc->nops; i++) {
+	for (int i = first; i < vc->nops; i++) {
 		const vop  *o = &vc->ops[i];
 		std::string n = o->name;
 		vr_at(i, o->name);
@@ -134,9 +177,9 @@ exec_c06(const vcase *vc)
 		if (n == "conn") {
 			if (p < 0 || p >= NPUSH || a1 < 0 || a1 >= NPULL || W.conn[p][a1])
 				continue;
-			char url[32];
-			snprintf(url, sizeof url, "inproc://c06-%d", a1);
-			H_OK(nng_dial(W.push[p], url, &W.dial[p][a1], 0));
+			H_OK(nng_dial(W.push[p], W.url[a1], &W.dial[p][a1], 0));
+			if (W.tran[a1] != 0)
+				W.wire_used[p] = true;
 			W.conn[p][a1] = true;
 			vs_settle();
 		} else if (n == "disc") {
@@ -145,7 +188,6 @@ exec_c06(const vcase *vc)
 			nng_dialer_close(W.dial[p][a1]);
 			W.conn[p][a1]  = false;
 			W.pipe_closed  = true;
-			W.last.erase(std::make_pair(p, a1)); // a later connection is a different connection
 			vs_settle();
 			vr_tag("pipe_closed");
 		} else if (n == "sbuf") {
@@ -160,8 +202,13 @@ exec_c06(const vcase *vc)
 		} else if (n == "send") { // send p mode(0 nb, >0 timed ms) extra
 			if (p < 0 || p >= NPUSH)
 				continue;
-			uint32_t tag = ((uint32_t) p << 24) | ++W.seq[p];
-			nng_msg *m   = h_msg(tag, (size_t) (a2 & 63));
+			uint32_t tag   = ((uint32_t) p << 24) | ++W.seq[p];
+			bool     empty = a2 < 0;
+			nng_msg *m     = nullptr;
+			if (empty)
+				H_OK(nng_msg_alloc(&m, 0));
+			else
+				m = h_msg(tag, (size_t) (a2 & 63));
 			uint64_t t0  = vs_now();
 			int      rv;
 			if (a1 <= 0) {
@@ -180,7 +227,10 @@ exec_c06(const vcase *vc)
 					vr_tag("timed_out_send");
 				}
 			}
-			if (rv == 0) {
+			if (rv == 0 && empty) {
+				W.empty_accepted++;
+				vr_tag("empty_message");
+			} else if (rv == 0) {
 				W.accepted.insert(tag);
 			} else {
 				VR_CHECK(at_is_live(m), "C06:failed-send-lost-message", "send failed with %d but the message was released", rv);
@@ -218,6 +268,33 @@ exec_c06(const vcase *vc)
 			vs_settle();
 			for (int pp = 0; pp < NPUSH; pp++)
 				reap_pending(W, pp);
+		} else if (n == "intrude") {
+			// a peer of the wrong protocol connects to the pusher (which also listens) and is turned away: it must not cost a message
+			if (p < 0 || p >= NPUSH)
+				continue;
+			char purl[48];
+			snprintf(purl, sizeof purl, "inproc://c06-push-%d", p);
+			if (!W.push_listens[p]) {
+				H_OK(nng_listen(W.push[p], purl, NULL, 0));
+				W.push_listens[p] = true;
+			}
+			nng_socket x;
+			switch (a1 % 4) {
+			case 0: H_OK(nng_push0_open(&x)); break;
+			case 1: H_OK(nng_pair0_open(&x)); break;
+			case 2: H_OK(nng_pub0_open(&x)); break;
+			default: H_OK(nng_req0_open(&x)); break;
+			}
+			nng_socket_set_ms(x, NNG_OPT_RECONNMINT, 10);
+			nng_socket_set_ms(x, NNG_OPT_RECONNMAXT, 10);
+			nng_dial(x, purl, NULL, NNG_FLAG_NONBLOCK);
+			vs_sleep(a2 > 0 ? a2 : 1);
+			vs_settle();
+			nng_socket_close(x);
+			vs_settle();
+			for (int pp = 0; pp < NPUSH; pp++)
+				reap_pending(W, pp);
+			vr_tag("wrong_protocol_peer_turned_away");
 		} else if (n == "wait") {
 			vs_sleep(a1 > 0 ? a1 : 1);
 			vs_settle();
@@ -231,7 +308,7 @@ exec_c06(const vcase *vc)
 				if ((int) (t >> 24) == pp && !W.received.count(t))
 					out++;
 			long bound = W.sbuf[pp] + 4L * npipes(W, pp) + 1;
-			if (!W.pipe_closed && !W.shrink_loss)
+			if (!W.pipe_closed && !W.shrink_loss && !W.wire_used[pp])
 				VR_CHECK(out <= bound, "C06:unbounded-acceptance",
 				    "pusher %d has %ld accepted-but-undelivered messages with SENDBUF %d and %d pipes (silent discard or unbounded queue)", pp,
 				    out, W.sbuf[pp], npipes(W, pp));
@@ -258,10 +335,18 @@ exec_c06(const vcase *vc)
 			}
 		}
 		vs_settle();
+		if (!any && W.wire && round < 6) {
+			vs_sleep(2); // bytes may still sit in a kernel buffer
+			vs_settle();
+			continue;
+		}
 		if (!any)
 			break;
 	}
 	bool all_connected_somewhere = true;
+	for (int p = 0; p < NPUSH; p++)
+		if (npipes(W, p) == 0 && W.empty_accepted != W.empty_received)
+			all_connected_somewhere = false; // (an empty message cannot name its pusher: be conservative)
 	for (int p = 0; p < NPUSH; p++)
 		if (npipes(W, p) == 0)
 			for (auto t : W.accepted)
@@ -271,14 +356,19 @@ exec_c06(const vcase *vc)
 		for (auto t : W.accepted)
 			VR_CHECK(W.received.count(t), "C06:lost-message", "message %x was accepted by send but never delivered (no pipe closed, no shrinking resize); accepted %zu received %zu",
 			    t, W.accepted.size(), W.received.size());
+		VR_CHECK(W.empty_accepted == W.empty_received, "C06:lost-message", "%ld empty messages were accepted by send but only %ld delivered (no pipe closed, no shrinking resize)",
+		    W.empty_accepted, W.empty_received);
 		vr_tag("conservation_checked");
 	}
 	if (W.pullers_used >= 2)
 		vr_tag("two_pullers");
 	for (int p = 0; p < NPUSH; p++)
 		nng_socket_close(W.push[p]);
-	for (int q = 0; q < NPULL; q++)
+	for (int q = 0; q < NPULL; q++) {
 		nng_socket_close(W.pull[q]);
+		if (W.tran[q] == 1)
+			unlink(W.url[q] + 6);
+	}
 	h_end();
 	return 0;
 }
@@ -291,7 +381,7 @@ genOp()
 	return gen::exec([]() {
 		std::ostringstream o;
 		int p = *pbt::range<int>(0, NPUSH - 1), q = *pbt::range<int>(0, NPULL - 1);
-		int k = *gen::weightedElement<int>({{12, 0}, {4, 1}, {10, 2}, {5, 3}, {2, 4}, {3, 5}, {1, 6}, {3, 7}});
+		int k = *gen::weightedElement<int>({{12, 0}, {4, 1}, {10, 2}, {5, 3}, {2, 4}, {3, 5}, {1, 6}, {3, 7}, {2, 8}, {2, 9}});
 		switch (k) {
 		case 0: o << "send " << p << " 0 " << *pbt::range<int>(0, 40); break;
 		case 1: o << "send " << p << " " << *gen::element(5, 20, 100) << " " << *pbt::range<int>(0, 40); break;
@@ -301,6 +391,8 @@ genOp()
 		case 5: o << "sbuf " << p << " " << *pbt::range<int>(0, 4); break;
 		case 6: o << "wait 0 " << *gen::element(1, 10, 50); break;
 		case 7: o << "asend " << p << " " << *gen::element(0, 0, 30, 200) << " " << *pbt::range<int>(0, 40); break;
+		case 8: o << "send " << p << " 0 -1"; break; // empty message
+		case 9: o << "intrude " << p << " " << *pbt::range<int>(0, 3) << " " << *gen::element(1, 15, 35); break;
 		}
 		return o.str();
 	});
@@ -312,6 +404,11 @@ gen_c06()
 	std::ostringstream t;
 	int mode = *pbt::welem<int>({{3, 0}, {2, 1}, {2, 2}});
 	t << "cfg " << *pbt::range<int>(1, 1000000) << " " << mode << " " << *gen::element(10, 30, 60) << " " << *pbt::range<int>(1, 3) << " 600 0\n";
+	// transport behind each puller: mostly inproc, sometimes ipc / tcp
+	t << "trans";
+	for (int q = 0; q < NPULL; q++)
+		t << " " << *pbt::welem<int>({{5, 0}, {2, 1}, {2, 2}});
+	t << "\n";
 	auto ops = *gen::container<std::vector<std::string>>(genOp());
 	for (auto &l : ops)
 		t << l << "\n";
